@@ -542,6 +542,8 @@ def run_wrapper(acc, pname, m, gi, graph, busy, rtr, dead, dls):
         variants.append("cres")
     if rtr == 1023 and any(n == 0 for n in graph["v"].values()):
         variants.append("same")
+    if gi % 3 == 1 and not busy:
+        variants.append("methods")
     for variant in variants:
         _run_wrapper(acc, pname, m, gi, graph, busy, rtr, dead, dls, variant)
 
@@ -562,6 +564,12 @@ def _run_wrapper(acc, pname, m, gi, graph, busy, rtr, dead, dls, variant):
         # the caller's own core resource
         Cores = "app_cores"
         xkw = dict(core_resource=Cores)
+    nkw = {}
+    if variant == "methods":
+        # the caller's own choice of minimisers (new wrapper only)
+        from rig.routing_table.remove_default_routes import minimise as rde
+        from rig.routing_table.ordered_covering import minimise as oc
+        nkw = dict(minimise_tables_methods=((oc,) if gi % 2 else (rde,)))
     si = system_info_for(m, busy, rtr)
     vr = {v: ({Cores: n} if n else {}) for v, n in graph["v"].items()}
     va = {v: "app_%s.aplx" % v for v in graph["v"] if graph["v"][v]}
@@ -599,7 +607,7 @@ def _run_wrapper(acc, pname, m, gi, graph, busy, rtr, dead, dls, variant):
                 if which == "new":
                     pl, al, amap, tables = place_and_route_wrapper(
                         vr, va, nets, net_keys, si, list(cons), place=place,
-                        place_kwargs=dict(kw), **xkw)
+                        place_kwargs=dict(kw), **dict(xkw, **nkw))
                 else:
                     if busy:
                         continue
